@@ -11,7 +11,7 @@ import ast
 
 from ..model import AnalysisError, unparse
 from ..report import RuleResult
-from ._c12_flow import Flow, argument, call_name, certain_strings, instance_facts, isinstance_of, parents, test_facts, top_types
+from ._c12_flow import Flow, argument, call_name, certain_strings, inline_closures, instance_facts, isinstance_of, parents, test_facts, top_types
 
 IN_PLACE = {"update", "append", "extend", "insert", "remove", "pop", "clear", "setdefault", "sort", "reverse"}
 COPY_CALLS = ("deepcopy", "copy.deepcopy", "copy.copy", "dict")
@@ -19,12 +19,33 @@ ORDER_KEEPING = ("list", "tuple", "iter")
 
 
 # ---------------------------------------------------------------------------------------------- normalised views
+def _record_resolver(ctx, module):
+    """call -> field names when the call constructs a NamedTuple / dataclass of the package (positional construction order)"""
+    def fields(call):
+        r = ctx.p.resolve_expr(module, call.func) if isinstance(call.func, (ast.Name, ast.Attribute)) else None
+        if not r or r[0] != "class" or r[1].node is None:
+            return None
+        K = r[1]
+        key = ("c12.record", id(K.node))
+        if key not in ctx.cache:
+            is_record = any(unparse(b).split(".")[-1] == "NamedTuple" for b in K.node.bases) or any("dataclass" in unparse(d) for d in K.node.decorator_list)
+            ctx.cache[key] = [st.target.id for st in K.node.body if isinstance(st, ast.AnnAssign) and isinstance(st.target, ast.Name)] if is_record else None
+        return ctx.cache[key]
+
+    return fields
+
+
 def _flow(ctx, fn, inline=True):
-    """(view, Flow) of a function, cached."""
+    """(view, Flow) of a function, cached.  On top of the normaliser's view, calls to LOCAL closures are expanded in place and small
+    records (NamedTuple / dataclass) are seen through when they are unpacked or their fields are read."""
     key = ("c12.flow", id(fn.node), inline)
     if key not in ctx.cache:
         v = ctx.view(fn, inline=inline) if inline else fn
-        ctx.cache[key] = (v, Flow(v.node))
+        if any(isinstance(x, ast.FunctionDef) and x is not v.node for x in ast.walk(v.node)):
+            from dataclasses import replace
+
+            v = replace(v, node=inline_closures(v.node))
+        ctx.cache[key] = (v, Flow(v.node, _record_resolver(ctx, fn.module)))
     return ctx.cache[key]
 
 
@@ -85,6 +106,70 @@ def _dict_stores(fl: Flow, root, calls):
                                 yield k.value, val, n
             elif n.func.attr == "__setitem__" and len(n.args) == 2 and isinstance(n.args[0], ast.Constant):
                 yield n.args[0].value, n.args[1], n
+
+
+def _literal_table(ctx, fn, fl: Flow, e, _depth=0):
+    """rows (lists of element expressions) of a literal table of tuples: a display, a local bound once to one, a module / class constant"""
+    if _depth > 4:
+        return None
+    e = _unwrap_order_keeping(e)
+    if isinstance(e, (ast.Tuple, ast.List)):
+        if e.elts and all(isinstance(r, (ast.Tuple, ast.List)) for r in e.elts):
+            return [list(r.elts) for r in e.elts]
+        return None
+    if isinstance(e, ast.Name):
+        if e.id in fl.defs:
+            return _literal_table(ctx, fn, fl, fl.defs[e.id][0], _depth + 1) if len(fl.defs[e.id]) == 1 else None
+        r = ctx.p.resolve_name(fn.module, e.id)
+        if r and r[0] == "assign":
+            return _literal_table(ctx, fn, fl, r[1][1], _depth + 1)
+    if isinstance(e, ast.Attribute) and isinstance(e.value, ast.Name) and fn.cls is not None and e.value.id in ("self", "cls", fn.cls.name):
+        m = fn.cls.lookup(e.attr)
+        if m and m[1] == "assign" and m[2] is not None:
+            return _literal_table(ctx, fn, fl, m[2], _depth + 1)
+    return None
+
+
+def _table_stores(ctx, fn, fl: Flow, root, calls):
+    """(key, value expr, statement) for stores `d[name] = make(x)` made inside a loop over a literal TABLE of rows
+    (name, .., make): one per row, the key being the row's constant and the value the row's callable applied — a lambda / a
+    one-expression function is replaced by its body with the argument put in."""
+    import copy
+
+    def is_h(e):
+        return any(fl.holds_entries_of(e, c) for c in calls)
+
+    for lp in [n for n in ast.walk(root) if isinstance(n, (ast.For, ast.AsyncFor)) and isinstance(n.target, (ast.Tuple, ast.List))]:
+        cols = {t.id: i for i, t in enumerate(lp.target.elts) if isinstance(t, ast.Name)}
+        rows = _literal_table(ctx, fn, fl, lp.iter)
+        if not rows or any(len(r) != len(lp.target.elts) for r in rows):
+            continue
+        for st in ast.walk(lp):
+            if not (isinstance(st, ast.Assign) and isinstance(st.targets[0], ast.Subscript) and isinstance(st.targets[0].slice, ast.Name)
+                    and st.targets[0].slice.id in cols and is_h(st.targets[0].value)):
+                continue
+            for row in rows:
+                key = row[cols[st.targets[0].slice.id]]
+                if not isinstance(key, ast.Constant):
+                    continue
+                val = st.value
+                if isinstance(val, ast.Call) and isinstance(val.func, ast.Name) and val.func.id in cols and not val.keywords:
+                    make = row[cols[val.func.id]]
+                    if isinstance(make, ast.Name):
+                        r = ctx.p.resolve_name(fn.module, make.id)
+                        body = r[1].node.body if r and r[0] == "func" else []
+                        body = [b for b in body if not (isinstance(b, ast.Expr) and isinstance(b.value, ast.Constant))]
+                        if len(body) == 1 and isinstance(body[0], ast.Return) and body[0].value is not None:
+                            make = ast.Lambda(args=r[1].node.args, body=body[0].value)
+                    if isinstance(make, ast.Lambda) and len(make.args.args) == len(val.args) and not (make.args.vararg or make.args.kwarg):
+                        bound = {p_.arg: a for p_, a in zip(make.args.args, val.args)}
+
+                        class Sub(ast.NodeTransformer):
+                            def visit_Name(self, n, bound=bound):
+                                return copy.deepcopy(bound[n.id]) if n.id in bound and isinstance(n.ctx, ast.Load) else n
+
+                        val = ast.fix_missing_locations(ast.copy_location(Sub().visit(copy.deepcopy(make.body)), st))
+                yield key.value, val, st
 
 
 def _entry_read(fl: Flow, e, calls, key=None) -> bool:
@@ -712,21 +797,30 @@ def rule_shape(ctx) -> RuleResult:
         fn = K.methods.get("copy")
         if fn is not None and fn.node.args.kwarg is not None:
             work.append((fn, fn))
+    # ... and the steps of the copy delegated to overridable hooks (template methods), which are handed the children
+    from ._c12_source import copy_functions, from_source
+
+    handed = {f: roots - {f.self_name} for f, roots in copy_functions(ctx) if f.cls is not None and not (f.name == "copy" or f.name.startswith("copy_") or f.name.endswith("_copy"))}
+    work += [(f, f) for f in handed]
     while work:
         fn, top = work.pop(0)
         if fn in done:
             continue
         done.add(fn)
-        kw = fn.node.args.kwarg.arg
+        kw = fn.node.args.kwarg.arg if fn.node.args.kwarg is not None else None
         fv, ffl = _flow(ctx, fn)
 
-        def is_child(e, ffl=ffl):
-            return _is_child(ffl, e)
+        def is_child(e, ffl=ffl, given=handed.get(fn, set())):
+            if _is_child(ffl, e):
+                return True
+            # an element of a collection of the source's children that the caller handed in
+            return bool(given) and any(isinstance(o, ast.Name) and o.id in ffl.loops and any(from_source(ffl, i, given, as_iter=True) for i in ffl.iterated_over(o.id))
+                                       for o in ffl.origins(e))
 
         for c in ast.walk(fv.node):
             if not isinstance(c, ast.Call):
                 continue
-            leak = any(k.arg is None and ffl.is_param(k.value, kw) for k in c.keywords)
+            leak = kw is not None and any(k.arg is None and ffl.is_param(k.value, kw) for k in c.keywords)
             nm = call_name(c)
             if leak and nm and nm.startswith("_") and not nm.startswith("__") and isinstance(c.func, ast.Attribute) and isinstance(c.func.value, ast.Name) \
                     and c.func.value.id in (fn.self_name, "cls") and fn.cls is not None:
@@ -753,7 +847,7 @@ def rule_shape(ctx) -> RuleResult:
         raise AnalysisError("Workspace.copy_to_parent: harvest of entity.entity_type not found")
     type_omit = set.intersection(*[certain_strings(argument(c, omit_i, "omit_list"), p, ctp.module, ctp.cls, tfl) for c in type_calls])
     recreated = set()
-    for key, val, _st in _dict_stores(tfl, tv.node, type_calls):
+    for key, val, _st in list(_dict_stores(tfl, tv.node, type_calls)) + list(_table_stores(ctx, ctp, tfl, tv.node, type_calls)):
         os_ = tfl.origins_at(val)
         # the stored value is built anew: it is neither a value that came in from outside nor an entry of a harvested dict
         if os_ and not any(isinstance(o, ast.Name) or _entry_read(tfl, o, type_calls + ent_calls) for o in os_):
